@@ -37,7 +37,9 @@ def main():
     try:
         obligations = discharged = 0
         axioms = {}
-        # 1. regenerate the parts of the model that come from /repo
+        # 1. regenerate the parts of the model that come from /repo (lock held until the audit is done,
+        #    so that a concurrent check of another tree cannot swap Generated/ under the build)
+        ctx.lean.locked()
         try:
             extract.regenerate(ctx)
         except Exception as e:   # the working tree cannot even be imported/extracted
@@ -67,6 +69,7 @@ def main():
                 ctx.extra["leanchecker"] = "ok" if p.returncode == 0 else (p.stdout + p.stderr)[-300:]
                 if p.returncode != 0:
                     ctx.broken.append("leanchecker rejected the compiled modules")
+        ctx.lean.unlock()
         # 4. correspondence + property oracle on the real code
         try:
             mod.run(ctx)
